@@ -1419,9 +1419,16 @@ def expand_fragment(frag_name, text, out_lines, regions, log, vacuity=False):
                 # independent seed agents invented under the same name): if it exists it is verified against the contract
                 # given here -- taken from the property, not from any body --, if not it is simply skipped
                 try:
-                    locate(spec.path)
+                    sf_o, chain_o = locate(spec.path)
                 except ExtractError:
                     continue
+                # an optional SLICE over a loop body: also skipped when the function exists but has no loop with that head
+                # (the shape the overlay is written for -- e.g. a loop over pre-resolved tuples -- is not there)
+                if is_slice and spec.opts['sel'][0] == 'loopbody' and chain_o[-1].body_open is not None:
+                    sel_o = spec.opts['sel']
+                    if not [lp for lp in find_loops(sf_o, chain_o[-1].body_open + 1, chain_o[-1].last)
+                            if find_token_seq(sf_o, lp[0], lp[1], plain_texts(sel_o[1]))]:
+                        continue
             start_region(name, [p for p in opts.get('props', '').split(',') if p], kind)
             cur_region.path = path
             cur_region.optional = 'optional' in opts
